@@ -19,7 +19,7 @@ import struct
 import sys
 from collections import Counter
 
-from .kit import H, Trace, repo_root, setup_repo_path, short, stream, weighted
+from .kit import pristine, H, Trace, repo_root, setup_repo_path, short, stream, weighted
 from .gen import schema as S
 
 PROPERTY = "C16"
@@ -715,11 +715,11 @@ def minimise(v):
     if f[0] == "cut":
         for k in range(len(data) - 1, f[1], -1):
             ww = dict(w, fault=["cut", k])
-            if any(x["class"] == cls for x in check_workload(ww)):
+            if any(x["class"] == cls for x in pristine(check_workload, ww)):
                 best = ww
                 break
     out = dict(v, workload=best, minimised=True)
-    vs = [x for x in check_workload(best) if x["class"] == cls]
+    vs = [x for x in pristine(check_workload, best) if x["class"] == cls]
     if vs:
         out["message"] = vs[0]["message"]
         return out
